@@ -23,7 +23,8 @@ Definition nat_in (n : nat) (l : list nat) : bool := existsb (Nat.eqb n) l.
 Definition mark_done (n : nat) (sub : string) (stamp : nat) (q : areq) : areq :=
   if Nat.eqb (q_id q) n then
     {| q_id := q_id q; q_client := q_client q; q_uri := q_uri q; q_scopes := q_scopes q;
-       q_nonce := q_nonce q; q_chal := q_chal q; q_done := true; q_sub := sub; q_auth := stamp |}
+       q_nonce := q_nonce q; q_chal := q_chal q; q_done := true; q_sub := sub; q_auth := stamp;
+       q_extra := q_extra q |}
   else q.
 
 Definition rt_of_resp (m : nat) (t : tokresp) : rtok :=
@@ -34,9 +35,9 @@ Definition add_rt (g : ledger) (t : tokresp) : list rtok :=
 
 Definition ledger_step (g : ledger) (o : op) (x : out) : ledger :=
   match o, x with
-  | Authorize cl uri sc nonce chal, OAuthz (Some n) =>
+  | Authorize cl uri sc nonce chal ax, OAuthz (Some n) =>
       {| g_reqs := {| q_id := n; q_client := cl; q_uri := uri; q_scopes := sc; q_nonce := nonce; q_chal := chal;
-                      q_done := false; q_sub := ""; q_auth := 0 |} :: g_reqs g;
+                      q_done := false; q_sub := hinted_sub ax; q_auth := 0; q_extra := ax |} :: g_reqs g;
          g_codes := g_codes g; g_used := g_used g; g_rts := g_rts g; g_rot := g_rot g; g_norefresh := g_norefresh g |}
   | Login n sub stamp, OLogin true =>
       {| g_reqs := map (mark_done n sub stamp) (g_reqs g);
@@ -156,7 +157,10 @@ Definition c07_ok (g : ledger) (o : op) (x : out) : bool :=
           && cred_proves cf cr (r_client r)
           && client_refresh cf (r_client r) && negb (string_in (r_client r) (g_norefresh g))
           && subset scopes (r_scopes r)
-          && subset (t_scope t) (r_scopes r)
+          (* the new grant is what its owner asked for: the requested scopes, or - none requested -
+             exactly the scopes the presented token was handed out with; nothing a refused request
+             (of this or another client) did in between may show *)
+          && strs_eqb (t_scope t) (match scopes with [] => r_scopes r | _ => scopes end)
           && match t_jwt t with Some c => String.eqb c (r_client r) | None => true end
           && match t_rt t with
              | Some m => negb (Nat.eqb m n) && match g_rt g m with None => true | Some _ => false end
@@ -168,6 +172,11 @@ Definition c07_ok (g : ledger) (o : op) (x : out) : bool :=
           && Nat.eqb (t_auth t) (r_auth r)
       end
   | TokenRefresh _ _ None _, OTokens _ => false
+  | TokenRefresh _ _ (Some n) scopes, OErr _ e =>
+      (* invalid_scope is the answer to a request that is NOT within the granted scopes *)
+      if String.eqb e E_scope
+      then match g_rt g n with Some r => negb (subset scopes (r_scopes r)) | None => true end
+      else true
   | _, _ => true
   end.
 
